@@ -556,7 +556,7 @@ func generate(w *lib.Writer, pl *pool, r *lib.Rand, tier string) {
 			}
 		}
 		// length 4: a sample of the 50625 patterns, all subjects, 3 inits each
-		for n := 0; n < 4000; n++ {
+		for n := 0; n < 2500; n++ {
 			p := nthPattern(4, r.Intn(pow(len(smallAlpha), 4)))
 			for _, s := range subjects {
 				for q := 0; q < 3; q++ {
@@ -584,7 +584,7 @@ func generate(w *lib.Writer, pl *pool, r *lib.Rand, tier string) {
 	// (2) grammar-generated longer patterns, (3) malformed stream
 	ngram, nmal, ngsub := 1100, 450, 700
 	if thorough {
-		ngram, nmal, ngsub = 60000, 20000, 30000
+		ngram, nmal, ngsub = 40000, 12000, 20000
 	}
 	for n := 0; n < ngram; n++ {
 		p := grammarPattern(r)
